@@ -783,7 +783,8 @@ TDump ==
 
 THang ==
   /\ IsEv("Hang")
-  /\ JudgeAnd(ObsViol(<<"C09">>, "Hang", [keys |-> <<>>, at |-> 0]))
+  \* after an injected failure a call that never returns has neither reported the error nor taken effect
+  /\ JudgeAnd(ObsViol(IF FaultMode THEN <<"C08", "C09">> ELSE <<"C09">>, "Hang", [keys |-> <<>>, at |-> 0]))
   /\ Step(FALSE, "")
   /\ UNCHANGED <<coreVars, runInfo, keep, lastIter, manNo, isOpen, flushed, gpins, deferred, ackStore, inflight>>
 
